@@ -112,23 +112,36 @@ def run(ck):
     ck.count("statements", len(sents), {s for _, s in sents}, sample={"sentence": sents[0][1][:100]})
     # ---- class completion: exactly the classes of the workspace, one placeholder per parameter
     progs = []
-    for _ in range(40 if ck.tier == "quick" else 600):
-        ncls = rng.randrange(1, 5)
+    for _ in range(120 if ck.tier == "quick" else 1500):
+        ncls = rng.randrange(1, 6)
         classes = {}
         main, inc = [], []
+        to_inc = []
         for i in range(ncls):
-            nm = rng.choice(["A", "B", "Foo", "Bar", "C1", "D"]) + str(i)
+            # names repeat on purpose: a forward declaration followed by the definition, or a re-declaration with another
+            # parameter list (the later declaration is the class of the workspace)
+            nm = rng.choice(["A", "B", "Foo", "Bar", "C1", "D"]) + rng.choice(["", "", str(i)])
             k = rng.randrange(0, 4)
+            params = ", ".join(rng.choice(["int p%d", "string p%d = \"s\"", "list<int> p%d", "bits<4> p%d = 0"]) % j for j in range(k))
+            decl = "class %s%s%s" % (nm, ("<" + params + ">") if k else "", rng.choice([";", " { int f = 1; }", " : Base0;"]))
+            to_inc.append((rng.random() < 0.3, nm, k, decl))
+        # the include is the first statement of main.td, so the declarations of inc.td come first
+        for is_inc, nm, k, decl in [x for x in to_inc if x[0]] + [x for x in to_inc if not x[0]]:
             classes[nm] = k
-            decl = "class %s%s;" % (nm, ("<" + ", ".join("int p%d" % j for j in range(k)) + ">") if k else "")
-            (inc if rng.random() < 0.3 else main).append(decl)
-        text = ('include "inc.td"\n' if inc else "") + "\n".join(main) + "\nmulticlass M { def x; }\ndef d0;\nclass Z : "
+            (inc if is_inc else main).append(decl)
+        kind = rng.choice(["class", "class2", "def", "defm", "multiclass", "defbody"])
+        head = ('include "inc.td"\n' if inc else "") + "class Base0;\n" + "\n".join(main) + "\nmulticlass M { def x; }\ndef d0;\n"
+        classes["Base0"] = 0
+        opener = {"class": "class Z : ", "class2": "class Z<int q> : Base0, ", "def": "def d1 : ", "defm": "defm dm : ",
+                  "multiclass": "multiclass MM : ", "defbody": "class Z { int f; }\ndef d2 : Base0, "}[kind]
+        text = head + opener
         pos = len(text.encode())
-        text += "A;"
+        text += "A" + (" { }" if kind == "multiclass" else ";")
         files = {"/main.td": text}
         if inc:
             files["/inc.td"] = "\n".join(inc)
-        classes["Z"] = 0
+        if kind in ("class", "class2", "defbody"):
+            classes["Z"] = 1 if kind == "class2" else 0
         progs.append((files, pos + 1, classes))
     outs = core.impl([ws(f, "/main.td", [["completion", "/main.td", p, None]]) for f, p, _ in progs], tag="cls")
     for (files, p, classes), o in zip(progs, outs):
@@ -137,13 +150,10 @@ def run(ck):
         except Exception:
             ck.fail(["C20", "class-completion", "crash"], "class completion query failed: %s" % o[:100], {"files": files, "pos": p}, o[:200], "items")
             continue
-        got = {}
-        for it in items or []:
-            if it[2] == "Class":
-                got[it[0]] = len(re.findall(r"\$\{\d+\}", it[1] or ""))
-        if got != classes:
+        got = sorted((it[0], len(re.findall(r"\$\{\d+\}", it[1] or ""))) for it in items or [] if it[2] == "Class")
+        if got != sorted(classes.items()):
             ck.fail(["C20", "class-completion", core.sig_hash(sorted(classes.items()))],
-                    "class completions differ from the classes of the workspace", {"files": files, "pos": p}, got, classes)
+                    "class completions differ from the classes of the workspace", {"files": files, "pos": p}, got, sorted(classes.items()))
     ck.count("class_completion", len(progs), {json.dumps(f, sort_keys=True) for f, _, _ in progs},
              sample={"files": progs[0][0], "pos": progs[0][1], "impl": outs[0][:200]})
     return ck.finish(**FINISH)
